@@ -596,5 +596,268 @@ theorem swizzle_wf_content (dflt : ν) (r k : Nat) (g : List Nat) (hg : GuideOk 
 
 end swz
 
+/-! ### flatten: merges whose new coordinates come out ascending never collide -/
+
+section flat
+variable {κ : Type} [LT κ] [DecidableRel (α := κ) (· < ·)] [DecidableEq κ] [StrictTotal κ]
+variable {ν : Type} [DecidableEq ν]
+
+theorem insGroup_append {π : Type} : ∀ (acc : Fib κ (List π)) (c : κ) (p : π),
+    (∀ e ∈ acc, e.1 < c) → insGroup acc c p = acc ++ [(c, [p])]
+  | [], _, _, _ => rfl
+  | e :: r, c, p, h => by
+    unfold insGroup
+    rw [if_pos (h e (List.mem_cons_self ..)),
+      insGroup_append r c p (fun x hx => h x (List.mem_cons_of_mem _ hx))]
+    rfl
+
+theorem foldl_insGroup_sorted {π : Type} : ∀ (pairs : Fib κ π) (acc : Fib κ (List π)),
+    Sorted pairs → (∀ e ∈ acc, ∀ x ∈ pairs, e.1 < x.1) →
+    pairs.foldl (fun acc x => insGroup acc x.1 x.2) acc = acc ++ pairs.map (fun x => (x.1, [x.2]))
+  | [], acc, _, _ => by simp
+  | x :: rest, acc, hs, h => by
+    rw [List.foldl_cons, insGroup_append acc x.1 x.2 (fun e he => h e he x (List.mem_cons_self ..)),
+      foldl_insGroup_sorted rest _ hs.tail]
+    · simp
+    · intro e he y hy
+      rcases List.mem_append.1 he with he | he
+      · exact h e he y (List.mem_cons_of_mem _ hy)
+      · rw [List.mem_singleton.1 he]; exact hs.head_lt y hy
+
+theorem gather_sorted {π : Type} (comb : κ → κ → κ) (rows : Fib κ (Fib κ π))
+    (hs : Sorted (pairsOf comb rows)) :
+    gather comb rows = (pairsOf comb rows).map (fun x => (x.1, [x.2])) := by
+  unfold gather
+  rw [foldl_insGroup_sorted _ [] hs (fun e he => by cases he)]
+  rfl
+
+theorem mergeTrees_singleton (mf : List ν → Option ν) (z : ν) :
+    ∀ (r : Nat) (x : Tree κ ν r × ν), mergeTrees mf z r [x] = some x
+  | 0, _ => rfl
+  | _ + 1, _ => rfl
+
+theorem mergeRows_sorted (comb : κ → κ → κ) (mf : List ν → Option ν) (z : ν) (r : Nat)
+    (rows : Fib κ (Fib κ (Tree κ ν r × ν))) (hs : Sorted (pairsOf comb rows)) :
+    mergeRows comb mf z r rows = some (pairsOf comb rows) := by
+  unfold mergeRows
+  rw [gather_sorted comb rows hs,
+    mapM?_eq_some _ (fun row => (row.1, row.2.headD (defaultTree z r, z)))]
+  · rw [List.map_map]
+    congr 1
+    conv => rhs; rw [← List.map_id (pairsOf comb rows)]
+    apply List.map_congr_left
+    intro x _; rfl
+  · intro row hrow
+    obtain ⟨x, _, rfl⟩ := List.mem_map.1 hrow
+    simp [mergeTrees_singleton]
+
+theorem pairsOf_map_tag {π : Type} (comb : κ → κ → κ) (d : ν) (rows : Fib κ (Fib κ π)) :
+    pairsOf comb (rows.map (fun e => (e.1, tagWith d e.2))) = tagWith d (pairsOf comb rows) := by
+  unfold pairsOf tagWith
+  induction rows with
+  | nil => rfl
+  | cons e rows ih =>
+    simp only [List.map_cons, List.flatMap_cons, List.map_append, List.map_map] at ih ⊢
+    rw [ih]
+    rfl
+
+theorem untag_tagWith {π : Type} (d : ν) (f : Fib κ π) : untag (tagWith d f) = f := by
+  unfold untag tagWith
+  rw [List.map_map]
+  conv => rhs; rw [← List.map_id f]
+  apply List.map_congr_left
+  intro x _; rfl
+
+theorem tagWith_sorted {π : Type} (d : ν) {f : Fib κ π} (h : Sorted f) : Sorted (tagWith d f) := by
+  unfold tagWith Sorted
+  rw [List.pairwise_map]
+  exact h
+
+/-- the ideal flattening of the top two ranks: every presented lower element under its combined
+    coordinate, in traversal order -/
+def flat2 (comb : κ → κ → κ) (dflt : ν) (r : Nat) (f : Tree κ ν (r + 2)) : Tree κ ν (r + 1) :=
+  show List (κ × Tree κ ν r) from
+    pairsOf comb ((show List (κ × Tree κ ν (r + 1)) from f).map (fun e => (e.1, present dflt r e.2)))
+
+theorem merge2T_sorted (comb : κ → κ → κ) (mf : List ν → Option ν) (z dflt : ν) (r : Nat)
+    (f : Tree κ ν (r + 2)) (hs : Sorted (show List (κ × Tree κ ν r) from flat2 comb dflt r f)) :
+    merge2T comb mf z dflt r f =
+      some (tagWith dflt (show List (κ × Tree κ ν r) from flat2 comb dflt r f)) := by
+  unfold merge2T
+  have e := pairsOf_map_tag comb dflt
+    ((show List (κ × Tree κ ν (r + 1)) from f).map (fun e => (e.1, present dflt r e.2)))
+  rw [List.map_map] at e
+  have e' : (show List (κ × Tree κ ν (r + 1)) from f).map
+      (fun e => (e.1, tagWith dflt (present dflt r e.2))) =
+      (show List (κ × Tree κ ν (r + 1)) from f).map
+        ((fun e => (e.1, tagWith dflt e.2)) ∘ (fun e => (e.1, present dflt r e.2))) := rfl
+  rw [e', mergeRows_sorted, e]
+  · rfl
+  · rw [e]; exact tagWith_sorted dflt hs
+
+/-- the top coordinate pair of a point combined -/
+def join2 (comb : κ → κ → κ) : List κ → List κ
+  | c1 :: c0 :: rest => comb c1 c0 :: rest
+  | p => p
+
+theorem content_flat2 (comb : κ → κ → κ) (dflt : ν) (r : Nat) (f : Tree κ ν (r + 2)) :
+    content dflt (r + 1) (flat2 comb dflt r f) =
+      (content dflt (r + 2) f).map (fun pv => (join2 comb pv.1, pv.2)) := by
+  have key : ∀ l : List (κ × Tree κ ν (r + 1)),
+      (pairsOf comb (l.map (fun e => (e.1, present dflt r e.2)))).flatMap
+          (fun e => pre e.1 (content dflt r e.2)) =
+        (l.flatMap (fun e => pre e.1 (content dflt (r + 1) e.2))).map
+          (fun pv => (join2 comb pv.1, pv.2)) := by
+    intro l
+    unfold pairsOf
+    induction l with
+    | nil => rfl
+    | cons e l ih =>
+      simp only [List.map_cons, List.flatMap_cons, List.flatMap_append, List.map_append] at ih ⊢
+      rw [ih]
+      congr 1
+      rw [content_present]
+      generalize present dflt r e.2 = pl
+      induction pl with
+      | nil => rfl
+      | cons x pl ih2 =>
+        simp only [List.map_cons, List.flatMap_cons, pre, List.map_append, List.map_map] at ih2 ⊢
+        rw [ih2]
+        rfl
+  exact key _
+
+/-- the ideal flattening of `l+2` ranks, lowest pair first -/
+def flatLv (comb : Nat → κ → κ → κ) (dflt : ν) (r : Nat) : (l : Nat) → Tree κ ν (r + 2 + l) → Tree κ ν (r + 1)
+  | 0, f => flat2 (comb 0) dflt r f
+  | l + 1, f => flat2 (comb (l + 1)) dflt r
+      (show List (κ × Tree κ ν (r + 1)) from
+        (show List (κ × Tree κ ν (r + 2 + l)) from f).map (fun e => (e.1, flatLv comb dflt r l e.2)))
+
+/-- the new coordinates come out ascending at every level (no collision, nothing to sort) -/
+def MonoLv (comb : Nat → κ → κ → κ) (dflt : ν) (r : Nat) : (l : Nat) → Tree κ ν (r + 2 + l) → Prop
+  | 0, f => Sorted (show List (κ × Tree κ ν r) from flatLv comb dflt r 0 f)
+  | l + 1, f => (∀ e ∈ (show List (κ × Tree κ ν (r + 2 + l)) from f), MonoLv comb dflt r l e.2) ∧
+      Sorted (show List (κ × Tree κ ν r) from flatLv comb dflt r (l + 1) f)
+
+def monoLvB (comb : Nat → κ → κ → κ) (dflt : ν) (r : Nat) : (l : Nat) → Tree κ ν (r + 2 + l) → Bool
+  | 0, f => sortedB (show List (κ × Tree κ ν r) from flatLv comb dflt r 0 f)
+  | l + 1, f => (show List (κ × Tree κ ν (r + 2 + l)) from f).all (fun e => monoLvB comb dflt r l e.2) &&
+      sortedB (show List (κ × Tree κ ν r) from flatLv comb dflt r (l + 1) f)
+
+theorem monoLvB_iff (comb : Nat → κ → κ → κ) (dflt : ν) (r : Nat) :
+    ∀ (l : Nat) (f : Tree κ ν (r + 2 + l)), monoLvB comb dflt r l f = true ↔ MonoLv comb dflt r l f
+  | 0, f => sortedB_iff _
+  | l + 1, f => by
+    unfold monoLvB MonoLv
+    rw [Bool.and_eq_true, List.all_eq_true, sortedB_iff]
+    constructor
+    · intro h; exact ⟨fun e he => (monoLvB_iff comb dflt r l e.2).1 (h.1 e he), h.2⟩
+    · intro h; exact ⟨fun e he => (monoLvB_iff comb dflt r l e.2).2 (h.1 e he), h.2⟩
+
+theorem MonoLv.sorted {comb : Nat → κ → κ → κ} {dflt : ν} {r : Nat} :
+    ∀ {l : Nat} {f : Tree κ ν (r + 2 + l)}, MonoLv comb dflt r l f →
+      Sorted (show List (κ × Tree κ ν r) from flatLv comb dflt r l f)
+  | 0, _, h => h
+  | _ + 1, _, h => h.2
+
+theorem presentT_tagWith (dflt : ν) (ok : Bool) : ∀ (r : Nat) (sub : List (κ × Tree κ ν r)),
+    presentT dflt dflt ok r (tagWith dflt sub) =
+      tagWith dflt (present dflt r (show Tree κ ν (r + 1) from sub))
+  | 0, sub => by
+    show List.filter (fun e => !isEmpty (κ := κ) (if ok then dflt else dflt) 0 e.2.1)
+        (List.map (fun e => (e.1, (e.2, dflt))) sub) =
+      List.map (fun e => (e.1, (e.2, dflt))) (List.filter (fun e => !isEmpty dflt 0 e.2) sub)
+    rw [List.filter_map]
+    congr 1
+    apply filter_congr'
+    intro e _
+    cases ok <;> rfl
+  | r + 1, sub => by
+    show List.filter (fun e => !isEmpty e.2.2 (r + 1) e.2.1)
+        (List.map (fun e => (e.1, (e.2, dflt))) sub) =
+      List.map (fun e => (e.1, (e.2, dflt))) (List.filter (fun e => !isEmpty dflt (r + 1) e.2) sub)
+    rw [List.filter_map]
+    rfl
+
+/-- with default 0 (`z = dflt`) and a non-linear style, `_mergeRanksHelper` computes the ideal
+    flattening whenever the new coordinates come out ascending -/
+theorem mergeLvT_mono (comb : Nat → κ → κ → κ) (mf : List ν → Option ν) (dflt : ν) (r : Nat) :
+    ∀ (l : Nat) (f : Tree κ ν (r + 2 + l)), MonoLv comb dflt r l f →
+      mergeLvT false dflt comb mf dflt r l f =
+        some (tagWith dflt (show List (κ × Tree κ ν r) from flatLv comb dflt r l f))
+  | 0, f, h => merge2T_sorted (comb 0) mf dflt dflt r f h
+  | l + 1, f, h => by
+    unfold mergeLvT
+    have hsub : mapM? (fun e => (mergeLvT false dflt comb mf dflt r l e.2).bind (fun t =>
+              let ok := lastOk r l e.2
+              let pr := presentT dflt dflt ok r t
+              if false && !ok && !pr.isEmpty then none else some (e.1, pr)))
+            (show List (κ × Tree κ ν (r + 2 + l)) from f) =
+        some ((show List (κ × Tree κ ν (r + 2 + l)) from f).map (fun e =>
+          (e.1, tagWith dflt (present dflt r (flatLv comb dflt r l e.2))))) := by
+      apply mapM?_eq_some
+      intro e he
+      rw [mergeLvT_mono comb mf dflt r l e.2 (h.1 e he)]
+      simp only [Option.bind_some, Bool.false_and, Bool.false_eq_true, if_false]
+      exact congrArg (fun x => some (e.1, x))
+        (presentT_tagWith dflt (lastOk r l e.2) r (show List (κ × Tree κ ν r) from flatLv comb dflt r l e.2))
+    rw [hsub]
+    simp only []
+    have e := pairsOf_map_tag (comb (l + 1)) dflt
+      ((show List (κ × Tree κ ν (r + 2 + l)) from f).map
+        (fun e => (e.1, present dflt r (flatLv comb dflt r l e.2))))
+    rw [List.map_map] at e
+    have hs : Sorted (show List (κ × Tree κ ν r) from flatLv comb dflt r (l + 1) f) := h.2
+    have hflat : (show List (κ × Tree κ ν r) from flatLv comb dflt r (l + 1) f) =
+        pairsOf (comb (l + 1)) ((show List (κ × Tree κ ν (r + 2 + l)) from f).map
+          (fun e => (e.1, present dflt r (flatLv comb dflt r l e.2)))) := by
+      show pairsOf (comb (l + 1)) (((show List (κ × Tree κ ν (r + 2 + l)) from f).map
+        (fun e => (e.1, flatLv comb dflt r l e.2))).map (fun e => (e.1, present dflt r e.2))) = _
+      rw [List.map_map]; rfl
+    have e' : (show List (κ × Tree κ ν (r + 2 + l)) from f).map
+        (fun e => (e.1, tagWith dflt (present dflt r (flatLv comb dflt r l e.2)))) =
+        (show List (κ × Tree κ ν (r + 2 + l)) from f).map
+          ((fun e => (e.1, tagWith dflt e.2)) ∘ (fun e => (e.1, present dflt r (flatLv comb dflt r l e.2)))) := rfl
+    rw [e', mergeRows_sorted, e]
+    · exact congrArg (fun x => some (tagWith dflt x)) hflat.symm
+    · rw [e]; exact tagWith_sorted dflt (by rw [← hflat]; exact hs)
+
+theorem mergeLv_mono (comb : Nat → κ → κ → κ) (mf : List ν → Option ν) (dflt : ν) (r l : Nat)
+    (f : Tree κ ν (r + 2 + l)) (h : MonoLv comb dflt r l f) :
+    mergeLv false dflt comb mf dflt r l f = some (flatLv comb dflt r l f) := by
+  unfold mergeLv
+  rw [mergeLvT_mono comb mf dflt r l f h]
+  exact congrArg some (untag_tagWith dflt (show List (κ × Tree κ ν r) from flatLv comb dflt r l f))
+
+/-- image of a point when its first `l+2` coordinates are combined, lowest pair first -/
+def joinTop (comb : Nat → κ → κ → κ) : (l : Nat) → List κ → List κ
+  | 0, p => join2 (comb 0) p
+  | l + 1, c :: rest => join2 (comb (l + 1)) (c :: joinTop comb l rest)
+  | _ + 1, [] => []
+
+theorem content_flatLv (comb : Nat → κ → κ → κ) (dflt : ν) (r : Nat) :
+    ∀ (l : Nat) (f : Tree κ ν (r + 2 + l)),
+      content dflt (r + 1) (flatLv comb dflt r l f) =
+        (content dflt (r + 2 + l) f).map (fun pv => (joinTop comb l pv.1, pv.2))
+  | 0, f => content_flat2 (comb 0) dflt r f
+  | l + 1, f => by
+    refine (content_flat2 (comb (l + 1)) dflt r _).trans ?_
+    show List.map _ (List.flatMap _ ((show List (κ × Tree κ ν (r + 2 + l)) from f).map _)) =
+      List.map _ (List.flatMap _ (show List (κ × Tree κ ν (r + 2 + l)) from f))
+    generalize (show List (κ × Tree κ ν (r + 2 + l)) from f) = lf
+    induction lf with
+    | nil => rfl
+    | cons e lf ih =>
+      simp only [List.map_cons, List.flatMap_cons, List.map_append] at ih ⊢
+      rw [ih]
+      congr 1
+      rw [content_flatLv comb dflt r l e.2]
+      simp only [pre, List.map_map]
+      apply List.map_congr_left
+      intro pv _
+      rfl
+
+end flat
+
 end C09
 end Ft
